@@ -243,3 +243,83 @@ func before(a, b ssa.Instruction) bool {
 	}
 	return a.Block().Dominates(b.Block())
 }
+
+// dt1ExistenceByError (C19): whether a field / member / element exists is answered by the engine's error
+// (ErrKeyNotFound), never by the shape of the value: empty values are legal (set members are stored with a nil value,
+// a hash field may hold ""), and the engine returns nil for them. A reply flag computed from `value == nil` or
+// `len(value) == 0` is wrong exactly for those.
+func dt1ExistenceByError(p *core.Prog, rep *core.Report) {
+	rep.Rule("DT1", "existence is decided by the error: in package datatype the value returned by DB.Get / Batch.Get is never compared with nil, and - unless the function takes the value apart as an encoding (indexing, slicing, decoder call), where a length test is a bounds guard - its length is never compared with 0")
+	getters := map[*ssa.Function]bool{p.MustMethod(p.R.DB, "Get"): true, p.MustMethod(p.R.Batch, "Get"): true}
+	// decoded: the value is an encoding the function takes apart (indexed, sliced or handed to a decoder): a length
+	// test on it is a bounds guard, not an existence test
+	decoded := func(v ssa.Value) bool {
+		for _, u := range *v.Referrers() {
+			switch t := u.(type) {
+			case *ssa.IndexAddr, *ssa.Slice, *ssa.Index:
+				return true
+			case *ssa.Call:
+				if _, isB := t.Call.Value.(*ssa.Builtin); !isB {
+					return true
+				}
+			}
+		}
+		return false
+	}
+	var bad []string
+	n := 0
+	for _, fn := range p.LibFuncs() {
+		if fn.Package() == nil || fn.Package().Pkg.Path() != core.ModPath+"/datatype" {
+			continue
+		}
+		for _, b := range fn.Blocks {
+			for _, in := range b.Instrs {
+				c, ok := in.(*ssa.Call)
+				if !ok || !getters[c.Common().StaticCallee()] {
+					continue
+				}
+				n++
+				for _, r := range *c.Referrers() {
+					ex, ok := r.(*ssa.Extract)
+					if !ok || ex.Index != 0 {
+						continue
+					}
+					vals := []ssa.Value{ex}
+					for k := 0; k < len(vals); k++ {
+						for _, u := range *vals[k].Referrers() {
+							switch t := u.(type) {
+							case *ssa.Phi:
+								if len(vals) < 16 {
+									vals = append(vals, t)
+								}
+							case *ssa.BinOp:
+								if (t.Op == token.EQL || t.Op == token.NEQ) && (core.IsNilConst(t.X) || core.IsNilConst(t.Y)) {
+									bad = append(bad, fmt.Sprintf("%s compares the value returned by Get with nil at %s", core.FuncKey(fn), p.InstrPos(t)))
+								}
+							case *ssa.Call:
+								if bi, ok := t.Call.Value.(*ssa.Builtin); ok && bi.Name() == "len" && !decoded(vals[k]) {
+									for _, lu := range *t.Referrers() {
+										if bo, ok := lu.(*ssa.BinOp); ok {
+											other := bo.X
+											if other == ssa.Value(t) {
+												other = bo.Y
+											}
+											if k, isC := constInt(other); isC && k == 0 {
+												bad = append(bad, fmt.Sprintf("%s compares the length of the value returned by Get with 0 at %s", core.FuncKey(fn), p.InstrPos(bo)))
+											}
+										}
+									}
+								}
+							}
+						}
+					}
+				}
+			}
+		}
+	}
+	if n < 5 {
+		rep.Unk("VAC", "DT1", "expected >= 5 engine Get calls in package datatype", "", fmt.Sprintf("found %d", n))
+		return
+	}
+	rep.Check(len(bad) == 0, "DT1", "existence-by-error", fmt.Sprintf("none of the %d engine Get calls of package datatype has its value tested for nil / emptiness", n), "", strings.Join(sortedStr(bad), "; ")+": an existing entry with an empty value is reported as absent", true)
+}
